@@ -177,6 +177,7 @@ type Exec struct {
 	assignsReach []Value // everything reachable from these values may be written
 	assignsAny bool
 	noAutoInv  bool
+	fixedLen   map[int]*smt.Term // fixed length of sequence-valued spec terms
 	AutoInvs   int      // derived search-loop invariants used
 	Notes      []string // non-fatal remarks (dropped invariants, ...)
 }
@@ -974,7 +975,7 @@ func (e *Exec) nameQuant(st *State, t *smt.Term) *smt.Term {
 	if b, ok := e.quantNames[t.ID]; ok {
 		return b
 	}
-	b := e.C.Fresh("q", smt.Bool)
+	b := e.C.FreshOver("q", smt.Bool, t)
 	e.quantNames[t.ID] = b
 	e.addAxioms(e.C.Eq(b, t))
 	return b
